@@ -315,8 +315,9 @@ pub fn gen_spec_at(rng: &mut Rng, rich: bool, first_page: Option<u64>) -> ElfSpe
             // never zero, so that file bytes and the zero tail are distinguishable
             data.push(((mix64(counter ^ i) % 255) + 1) as u8);
         }
-        // (rich: also the OS- and processor-specific bits PF_MASKOS / PF_MASKPROC, which a loader has to ignore)
-        let flags = if rich { rng.below(8) as u32 | *rng.pick(&[0u32, 0, 0, 0x0010_0000, 0x8000_0000, 0x0ff0_0000, 0xf000_0000]) } else { *rng.pick(&[4u32, 5, 6]) };
+        // (rich: also the OS- and processor-specific bits PF_MASKOS / PF_MASKPROC and the unassigned bits 3..19, none of
+        // which says anything about R, W or X)
+        let flags = if rich { rng.below(8) as u32 | *rng.pick(&[0u32, 0, 0, 0x0010_0000, 0x8000_0000, 0x0ff0_0000, 0xf000_0000, 0x8, 0x10, 0x18, 0xfff8, 0x000f_fff8]) } else { *rng.pick(&[4u32, 5, 6]) };
         let paddr = if rich { match rng.below(6) { 0 => 0, 1 => rng.val(), 2 => vaddr.wrapping_add(0x1000_0000), _ => vaddr } } else { vaddr };
         let align = if rich { *rng.pick(&[0x1000u64, 0x1000, 0x1000, 0, 1, 0x10, 0x100, 0x800, 0x2000, 0x10000, 0x20_0000, 0x20_0000]) } else { 0x1000 };
         segs.push(Seg { flags, vaddr, data, memsz, paddr, align });
